@@ -1,7 +1,11 @@
 
+val negb : bool -> bool
+
 type nat =
 | O
 | S of nat
+
+val option_map : ('a1 -> 'a2) -> 'a1 option -> 'a2 option
 
 val fst : ('a1 * 'a2) -> 'a1
 
@@ -18,7 +22,13 @@ type comparison =
 
 val compOpp : comparison -> comparison
 
+val pred : nat -> nat
+
 val add : nat -> nat -> nat
+
+val mul : nat -> nat -> nat
+
+val sub : nat -> nat -> nat
 
 type positive =
 | XI of positive
@@ -33,6 +43,17 @@ type z =
 | Z0
 | Zpos of positive
 | Zneg of positive
+
+module Nat :
+ sig
+  val eqb : nat -> nat -> bool
+
+  val leb : nat -> nat -> bool
+
+  val ltb : nat -> nat -> bool
+
+  val min : nat -> nat -> nat
+ end
 
 module Pos :
  sig
@@ -139,6 +160,8 @@ module Z :
 
   val ltb : z -> z -> bool
 
+  val eqb : z -> z -> bool
+
   val to_nat : z -> nat
 
   val to_N : z -> n
@@ -162,7 +185,15 @@ val map : ('a1 -> 'a2) -> 'a1 list -> 'a2 list
 
 val forallb : ('a1 -> bool) -> 'a1 list -> bool
 
+val firstn : nat -> 'a1 list -> 'a1 list
+
+val skipn : nat -> 'a1 list -> 'a1 list
+
+val repeat : 'a1 -> nat -> 'a1 list
+
 type byte = n
+
+val list_eqb : n list -> n list -> bool
 
 val escape_leader : n
 
@@ -171,6 +202,12 @@ val escape_base_json : (n list * n list) list
 val escape_all_chars : n list
 
 val escape_all_first_code : n
+
+val resume_min_protocol : n
+
+val resume_v3_truncate : bool
+
+val resume_v2_truncate : bool
 
 val leader : byte
 
@@ -225,3 +262,86 @@ val escape_all_pairs : n list -> n -> n list list list
 val builtin_json : bool -> n list list list
 
 val builtin_table : bool -> table
+
+type digest = n list
+
+type hmsg =
+| Hash of z * digest
+| Over
+
+type ack = { a_step : z; a_match : bool }
+
+type file = { f_data : byte list; f_off : nat }
+
+val f_write : file -> byte list -> file
+
+val f_seek : file -> nat -> file
+
+val f_truncate : file -> nat -> file
+
+val bn : n -> nat
+
+val send_hashes :
+  n -> (byte list -> digest) -> nat -> nat option -> byte list -> nat -> nat
+  -> byte list -> hmsg list option
+
+type rstate = { r_match : bool; r_mstep : z; r_fed : byte list; r_off : 
+                nat; r_acks : ack list }
+
+val r_init : rstate
+
+type rout =
+| ROver of rstate
+| RBlocked of rstate
+| RPanic of rstate * z
+| RReadErr of rstate * z
+
+val recv_hashes :
+  (byte list -> digest) -> byte list -> hmsg list -> rstate -> rout
+
+type sres =
+| SDone of z
+| SErr of z
+| SBlocked
+
+val recv_acks : z -> ack list -> z -> sres
+
+type outcome = { o_hashes : hmsg list; o_acks : ack list; o_mrecv : z;
+                 o_msend : z; o_sent : byte list; o_final : byte list }
+
+type result =
+| Done of outcome
+| SenderBlocked of hmsg list * ack list
+| SenderErr of z
+| RecvFail of rout
+| OutOfFuel
+
+val opened : n -> byte list -> byte list
+
+val no_exchange : byte list -> byte list -> result
+
+val run :
+  n -> (byte list -> digest) -> n -> nat option -> byte list -> byte list ->
+  result
+
+val block_end : n -> nat -> nat -> nat
+
+val good_blocks :
+  n -> (byte list -> digest) -> nat -> byte list -> byte list -> nat -> nat
+  -> nat
+
+val agreed : n -> (byte list -> digest) -> byte list -> byte list -> nat
+
+val abs_nblocks : n -> n -> n
+
+val abs_agreed : n -> n -> n -> n
+
+val abs_good : n -> n -> n -> n
+
+val abs_nacks : n -> n -> n -> n
+
+val abs_stops_ok : n -> n -> n -> n -> bool
+
+val run_id : n -> n -> nat option -> byte list -> byte list -> result
+
+val agreed_id : n -> byte list -> byte list -> nat
